@@ -360,6 +360,9 @@ typename small_vector<T,S>::iterator small_vector<T, S>::insert(
 
   const auto n(static_cast<size_type>(std::distance(b, e)));
 
+  if (n == 0)  // nothing to insert (and nothing to move onto itself)
+    return i;
+
   reserve(size() + n);
 
   // Uninvalidate the iterator.
